@@ -198,6 +198,7 @@ namespace pika::thread_pool_bulk_detail {
                 // that there is a current exception.
                 void store_exception() const
                 {
+                    PIKA_VERIF_POINT("bulk.excx", op_state, worker_thread, 0);
                     if (!op_state->exception_thrown.exchange(true))
                     {
                         // NOLINTNEXTLINE(bugprone-throw-keyword-missing)
